@@ -16,7 +16,7 @@ pub const FAULT_CLASSES: &[&str] = &[
     "RedeclarationAsType", "RedeclarationAsProcedure", "RedeclarationAsParameter", "RedeclarationAsVariable",
     "MustBeAReferenceParameter", "MainIsNotAProcedure", "MainMustNotHaveParameters", "MissingTrailingSemic", "MissingClosing",
     "UnaryMinusNonInteger", "AssignmentLevels", "UndefinedVariableNested", "NotAVariableNested", "UndefinedVariableInArgs",
-    "AnonymousArrayIdentity", "CallOfShadowedProcedure", "RedeclarationOtherType", "FaultInIndex",
+    "AnonymousArrayIdentity", "CallOfShadowedProcedure", "RedeclarationOtherType", "FaultInIndex", "FaultInCondition",
 ];
 
 /// Inject one violation of rule `class` into a well-typed program.  Returns the new token list and the
@@ -112,6 +112,17 @@ pub fn inject(rng: &mut Rng, prog: &Prog, class: &str) -> Option<(Vec<Tok>, usiz
                 _ => Some((s(&[&a, "[", &a, "[", "undefv", "]", "]", ":=", "1", ";"]), 4, 5, "UndefinedVariable")),
             }
         }),
+        // the fault IS the whole test expression of an `if` / `while`: the condition has no type, and the rule about
+        // boolean conditions itself is not violated (exactly one diagnostic)
+        "FaultInCondition" => {
+            let s = |v: &[&str]| v.iter().map(|t| t.to_string()).collect::<Vec<String>>();
+            let kw = if rng.chance(1, 2) { "if" } else { "while" };
+            match rng.below(3) {
+                0 => Some((s(&[kw, "(", "undefv", ")", ";"]), 2, 3, "UndefinedVariable")),
+                1 if !shadowed("exit") => Some((s(&[kw, "(", "exit", ")", ";"]), 2, 3, "NotAVariable")),
+                _ => int_var.clone().map(|x| (s(&[kw, "(", &x, "[", "0", "]", ")", ";"]), 2, 6, "IndexingNonArray")),
+            }
+        }
         "MissingTrailingSemic" => Some((vec![";", "exit", "(", ")"].iter().map(|s| s.to_string()).collect(), 1, 4, class)),
         "MissingClosing" => Some((vec!["exit", "(", ";"].iter().map(|s| s.to_string()).collect(), 0, 3, class)),
         _ => None,
